@@ -13,16 +13,34 @@ import (
 	"verif/harness/internal/hx"
 )
 
+// Besides the forms of the calculus, an expression may use *source-level forms* that the Lean calculus does
+// not have: they are rendered as such in the Cadence source, and as an equivalent calculus expression in
+// the S-expression (same value, same faults, same evaluation order of the faulting parts):
+//
+//	neg e            (-e)                 = (sub (lit 0) e)
+//	conv e           Int(e)               = e         (invocation)
+//	forceopt e       ((e as Int?)!)       = e         (cast + force)
+//	fcast e          (e as! Int)          = e         (force cast)
+//	idx0 e           [e, 7][0]            = e         (array literal + index)
+//	idx1 e           [7, e][1]            = e
+//	kite C l r       (C ? l : r)          = l or r    C has a statically known truth value (Known) and no
+//	                                                  faulting part: tt, ff, e<e, e<=e, e==e, negations
+//	dite C l r       (C ? l : r)          only as the left operand of a comparison:
+//	                                      cmp (dite C l r) z = (or (and C (cmp l z)) (and (not C) (cmp r z)))
+//	(BExp) ite C p q (C ? p : q)          = (or (and C p) (and (not C) q))
 type CIExp struct {
-	Op   string // lit x y a b result before add sub mul div
-	N    int64
-	L, R *CIExp
+	Op    string // lit x y a b result before add sub mul div | neg conv forceopt fcast idx0 idx1 kite dite
+	N     int64
+	L, R  *CIExp
+	C     *CBExp // kite, dite
+	Known bool   // kite: the truth value of C
 }
 
 type CBExp struct {
-	Op     string // tt ff lt le eq and or not
+	Op     string // tt ff lt le eq and or not | ite
 	IL, IR *CIExp
 	BL, BR *CBExp
+	BC     *CBExp // ite: the test
 }
 
 type CCond struct {
@@ -81,8 +99,23 @@ func (e *CIExp) SX() string {
 		return "(" + e.Op + ")"
 	case "before":
 		return "(before " + e.L.SX() + ")"
+	case "neg":
+		return "(sub (lit 0) " + e.L.SX() + ")"
+	case "conv", "forceopt", "fcast", "idx0", "idx1":
+		return e.L.SX()
+	case "kite":
+		if e.Known {
+			return e.L.SX()
+		}
+		return e.R.SX()
+	case "dite":
+		panic("dite outside a comparison")
 	}
 	return "(" + e.Op + " " + e.L.SX() + " " + e.R.SX() + ")"
+}
+
+func iteSX(c, p, q string) string {
+	return "(or (and " + c + " " + p + ") (and (not " + c + ") " + q + "))"
 }
 
 func (e *CBExp) SX() string {
@@ -90,9 +123,15 @@ func (e *CBExp) SX() string {
 	case "tt", "ff":
 		return "(" + e.Op + ")"
 	case "lt", "le", "eq":
+		if e.IL.Op == "dite" {
+			r := e.IR.SX()
+			return iteSX(e.IL.C.SX(), "("+e.Op+" "+e.IL.L.SX()+" "+r+")", "("+e.Op+" "+e.IL.R.SX()+" "+r+")")
+		}
 		return "(" + e.Op + " " + e.IL.SX() + " " + e.IR.SX() + ")"
 	case "not":
 		return "(not " + e.BL.SX() + ")"
+	case "ite":
+		return iteSX(e.BC.SX(), e.BL.SX(), e.BR.SX())
 	}
 	return "(" + e.Op + " " + e.BL.SX() + " " + e.BR.SX() + ")"
 }
@@ -174,6 +213,20 @@ func (e *CIExp) Src() string {
 		return "self." + e.Op
 	case "before":
 		return "before(" + e.L.Src() + ")"
+	case "neg":
+		return "(-" + e.L.Src() + ")"
+	case "conv":
+		return "Int(" + e.L.Src() + ")"
+	case "forceopt":
+		return "((" + e.L.Src() + " as Int?)!)"
+	case "fcast":
+		return "(" + e.L.Src() + " as! Int)"
+	case "idx0":
+		return "[" + e.L.Src() + ", 7][0]"
+	case "idx1":
+		return "[7, " + e.L.Src() + "][1]"
+	case "kite", "dite":
+		return "(" + e.C.Src() + " ? " + e.L.Src() + " : " + e.R.Src() + ")"
 	}
 	op := map[string]string{"add": "+", "sub": "-", "mul": "*", "div": "/"}[e.Op]
 	return "(" + e.L.Src() + " " + op + " " + e.R.Src() + ")"
@@ -190,6 +243,8 @@ func (e *CBExp) Src() string {
 		return "(" + e.IL.Src() + " " + op + " " + e.IR.Src() + ")"
 	case "not":
 		return "(!" + e.BL.Src() + ")"
+	case "ite":
+		return "(" + e.BC.Src() + " ? " + e.BL.Src() + " : " + e.BR.Src() + ")"
 	case "and":
 		return "(" + e.BL.Src() + " && " + e.BR.Src() + ")"
 	}
@@ -793,6 +848,233 @@ func GenCondBefore(r *hx.Rng) *CProgram {
 			f.Conds.Pre = []CCond{{Emit: &CIExp{Op: "lit", N: g.id}}}
 		}
 		p.Funs = append(p.Funs, f)
+	}
+	nCalls := 1 + r.Intn(2)
+	if oracle {
+		nCalls = 1
+	}
+	for i := 0; i < nCalls; i++ {
+		p.Main = append(p.Main, CCall{Fn: names[r.Intn(len(names))], X: g.lit().N, Y: g.lit().N})
+	}
+	return p
+}
+
+
+// ---- directed family: post-conditions built from the forms the before-extractor rewrites ----
+
+// a small expression without faulting parts; post: may capture a before value
+func (g *condGen) calm(post bool) *CIExp {
+	var e *CIExp
+	switch g.r.Intn(6) {
+	case 0:
+		e = &CIExp{Op: "a"}
+	case 1:
+		e = &CIExp{Op: "b"}
+	case 2:
+		e = &CIExp{Op: "x"}
+	case 3:
+		e = &CIExp{Op: "add", L: &CIExp{Op: "a"}, R: &CIExp{Op: "y"}}
+	case 4:
+		e = &CIExp{Op: "sub", L: &CIExp{Op: "b"}, R: g.lit()}
+	default:
+		e = g.lit()
+	}
+	if post && g.r.Chance(50) {
+		g.forms["before"] = true
+		e = cBefore(e)
+	}
+	return e
+}
+
+// one of the source-level integer forms around e
+func (g *condGen) sugarI(e *CIExp, post bool) *CIExp {
+	switch g.r.Intn(8) {
+	case 0:
+		g.forms["sx-unary"] = true
+		return &CIExp{Op: "neg", L: &CIExp{Op: "neg", L: e}}
+	case 1:
+		g.forms["sx-invocation"] = true
+		return &CIExp{Op: "conv", L: e}
+	case 2:
+		g.forms["sx-force"] = true
+		return &CIExp{Op: "forceopt", L: e}
+	case 3:
+		g.forms["sx-cast"] = true
+		return &CIExp{Op: "fcast", L: e}
+	case 4:
+		g.forms["sx-index"] = true
+		return &CIExp{Op: "idx0", L: e}
+	case 5:
+		g.forms["sx-index"] = true
+		return &CIExp{Op: "idx1", L: e}
+	}
+	g.forms["sx-conditional"] = true
+	k := g.r.Bool()
+	other := g.calm(post)
+	if k {
+		return &CIExp{Op: "kite", C: g.knownB(true, post), Known: true, L: e, R: other}
+	}
+	return &CIExp{Op: "kite", C: g.knownB(false, post), Known: false, L: other, R: e}
+}
+
+// a test with the given truth value in every state, without faulting parts
+func (g *condGen) knownB(val bool, post bool) *CBExp {
+	e := g.calm(post)
+	if g.r.Chance(20) {
+		return &CBExp{Op: "not", BL: g.knownB(!val, post)}
+	}
+	if val {
+		switch g.r.Intn(3) {
+		case 0:
+			return &CBExp{Op: "tt"}
+		case 1:
+			return &CBExp{Op: "le", IL: e, IR: e}
+		}
+		return &CBExp{Op: "eq", IL: e, IR: e}
+	}
+	if g.r.Bool() {
+		return &CBExp{Op: "ff"}
+	}
+	return &CBExp{Op: "lt", IL: e, IR: e}
+}
+
+// a comparison over calm operands (truth value depends on the state)
+func (g *condGen) calmCmp(post bool) *CBExp {
+	op := []string{"lt", "le", "eq"}[g.r.Intn(3)]
+	l, r := g.calm(post), g.calm(post)
+	if g.r.Chance(50) {
+		l = g.sugarI(l, post)
+	}
+	if g.r.Chance(30) {
+		r = g.sugarI(r, post)
+	}
+	return &CBExp{Op: op, IL: l, IR: r}
+}
+
+// a test of known truth value that contains a conditional expression whose test is false / true
+func (g *condGen) knownIte(val bool, post bool) *CBExp {
+	g.forms["sx-conditional"] = true
+	switch g.r.Intn(3) {
+	case 0: // test false: the else branch decides
+		return &CBExp{Op: "ite", BC: g.knownB(false, post), BL: g.knownB(!val, post), BR: g.knownB(val, post)}
+	case 1: // test true: the then branch decides
+		return &CBExp{Op: "ite", BC: g.knownB(true, post), BL: g.knownB(val, post), BR: g.knownB(!val, post)}
+	}
+	// integer conditional under a comparison: (C ? e : e+1) == e  with C true / false
+	e := g.calm(post)
+	e1 := &CIExp{Op: "add", L: e, R: &CIExp{Op: "lit", N: 1}}
+	c := g.knownB(val, post)
+	return &CBExp{Op: "eq", IL: &CIExp{Op: "dite", C: c, L: e, R: e1}, IR: e}
+}
+
+func (g *condGen) sugarCond(post bool) CCond {
+	switch g.r.Intn(7) {
+	case 0:
+		return CCond{Emit: g.sugarI(g.calm(post), post)}
+	case 1:
+		return CCond{Test: g.calmCmp(post)}
+	case 2: // conditional with a state-dependent test
+		g.forms["sx-conditional"] = true
+		return CCond{Test: &CBExp{Op: "ite", BC: g.calmCmp(post), BL: g.calmCmp(post), BR: g.calmCmp(post)}}
+	case 3:
+		g.forms["sx-conditional"] = true
+		return CCond{Test: &CBExp{Op: []string{"lt", "le", "eq"}[g.r.Intn(3)],
+			IL: &CIExp{Op: "dite", C: g.calmCmp(post), L: g.calm(post), R: g.calm(post)}, IR: g.calm(post)}}
+	case 4:
+		g.forms["sx-conditional"] = true
+		return CCond{Emit: &CIExp{Op: "kite", C: g.knownB(false, post), Known: false, L: g.calm(post), R: g.calm(post)}}
+	}
+	return CCond{Test: g.knownIte(true, post)}
+}
+
+// GenCondSugar generates a program whose conditions are built from the expression forms the
+// before-extractor rewrites (conditional, unary, invocation, cast, force, index), with before(..) nested
+// inside.  `oracle` shapes: every condition holds in every state except one post-condition (own, or of
+// one interface; the function may be the interface's default implementation) that is false in every
+// state because of the branch its conditional expression takes; one call.
+func GenCondSugar(r *hx.Rng) *CProgram {
+	g := &condGen{r: r, forms: map[string]bool{"sx-forms": true}}
+	p := &CProgram{Forms: g.forms}
+	names := []string{"f", "g"}[:1+r.Intn(2)]
+	nIf := 1 + r.Intn(3)
+	oracle := r.Chance(45)
+	falseAt := -1 // index of the interface holding the false condition; nIf = the composite
+	if oracle {
+		falseAt = r.Intn(nIf + 1)
+		g.forms["const-false"] = true
+		g.forms["const-false-conditional"] = true
+	}
+	dflt := map[string]bool{}
+	for _, n := range names {
+		if r.Chance(30) {
+			dflt[n] = true // implemented by the default function of the last interface
+			g.forms["default"] = true
+			g.forms["uses-default"] = true
+		}
+	}
+	block := func(post bool, holder int) []CCond {
+		g.id++
+		cs := []CCond{{Emit: &CIExp{Op: "lit", N: g.id}}}
+		n := 1 + g.r.Intn(2)
+		for i := 0; i < n; i++ {
+			if oracle {
+				cs = append(cs, CCond{Test: g.knownIte(true, post)})
+			} else {
+				cs = append(cs, g.sugarCond(post))
+			}
+		}
+		if post && holder == falseAt {
+			k := 1 + g.r.Intn(len(cs))
+			f := CCond{Test: g.knownIte(false, true)}
+			cs = append(cs[:k:k], append([]CCond{f}, cs[k:]...)...)
+		}
+		return cs
+	}
+	for i := 0; i < nIf; i++ {
+		var it CIface
+		for j := 0; j < i; j++ {
+			if r.Chance(60) {
+				it.Conforms = append(it.Conforms, j)
+			}
+		}
+		for _, n := range names {
+			last := i == nIf-1
+			if !last && !r.Chance(70) {
+				continue
+			}
+			f := CIFun{Name: n}
+			if r.Chance(50) {
+				f.Conds.Pre = block(false, i)
+			}
+			f.Conds.Post = block(true, i)
+			if last && dflt[n] {
+				f.Dflt = g.beforeBody()
+			}
+			it.Funs = append(it.Funs, f)
+		}
+		p.Ifaces = append(p.Ifaces, it)
+	}
+	p.Conforms = []int{nIf - 1}
+	for j := nIf - 2; j >= 0; j-- {
+		if r.Chance(40) {
+			p.Conforms = append(p.Conforms, j)
+		}
+	}
+	p.A0, p.B0 = g.lit().N, g.lit().N
+	for _, n := range names {
+		if dflt[n] {
+			continue
+		}
+		f := CCFun{Name: n, Body: g.beforeBody()}
+		if r.Chance(50) {
+			f.Conds.Pre = block(false, nIf)
+		}
+		f.Conds.Post = block(true, nIf)
+		p.Funs = append(p.Funs, f)
+	}
+	if falseAt == nIf && len(p.Funs) == 0 { // every function is a default: move the false condition
+		k := &p.Ifaces[nIf-1].Funs[0].Conds
+		k.Post = append(k.Post, CCond{Test: g.knownIte(false, true)})
 	}
 	nCalls := 1 + r.Intn(2)
 	if oracle {
